@@ -32,6 +32,9 @@ class WFQ(Scheduler):
         self.last_time: SimTime = 0.0
         """Clock time of most recent put and send operation"""
         self.store = PriorityStore(env)
+        self.arrivals: int = 0
+        """Number of packets accepted so far: breaks ties among equal finish
+        times (zero-length packets of one burst) in arrival order"""
 
         self.action = env.process(self.run(env))
 
@@ -85,4 +88,7 @@ class WFQ(Scheduler):
             f"finish_time {self.finish_times[class_id]}"
         )
 
-        self.store.put(PriorityItem((self.finish_times[class_id], now), packet))
+        self.arrivals += 1
+        self.store.put(
+            PriorityItem((self.finish_times[class_id], now, self.arrivals), packet)
+        )
